@@ -72,6 +72,15 @@ CLAIMED["C16"] = (
     "Decides that the protocol list reported for a connection is built by appending each offered entry, in order, to an empty slice, skipping only certificate-preference entries; that client state is taken from the certificate function's response on its success edge (and is set there only behind C05's gate); that Accept hands exactly this connection's metadata to NewConn; and that NewConn/ClientNextProtos copy. Equality of client state for every structure (protobuf round trip) is not decided.",
     _T, "DESIGN.md 5/C16")
 
+CLAIMED["C17"] = (
+    "SSA guard-cut of the routing guards + registry-key provenance of IngressConn receivers + exactly-once ownership dataflow of accepted connections + deferred-close / cancel-before-return shape + registry content invariant for type assertions",
+    "Decides that a connection reaches a sub-listener taken from the registry by client protocol or by the authenticated non-specific name only after ContainsKnownAlpnProto(negotiated), not the fetch prefix and a completed handshake, and the unauthenticated sub-listener only otherwise; that every accepted connection is ingressed to exactly one sub-listener or closed exactly once on every path; that stopping closes all sub-listeners and cancels the context; that the multiplexing Accept strips to *tls.Conn only when nativeConns is set and false; that the registry holds only string -> *MultiplexingListener. Connections in flight at close and assumption A3 are not decided.",
+    _T + "; assumption A3", "DESIGN.md 5/C17")
+CLAIMED["C18"] = (
+    "forward must lock-state dataflow (defer-aware, sync.Once.Do closures inlined) over every MultiplexingListener function + guard-cut of the closed-flag test + exactly-once ownership dataflow of connections through Accept, IngressConn, the ingress goroutine and the drain goroutine",
+    "Decides the static lock and ownership discipline that the schedule property needs: every access to closed is under the mutex in a sufficient mode; every send on incoming happens under the read lock after testing closed in that same locked region; the channel is closed once, under the write lock, after the flag is set; Close starts the drain before taking the write lock; lock state is balanced at every return; a received connection is returned or closed exactly once, an ingressed one is sent or closed, drained ones are closed; closure is reported as net.ErrClosed. Deadlock freedom and exactly-once delivery over all schedules, and data-race freedom beyond this discipline, are NOT decided.",
+    _T, "DESIGN.md 5/C18")
+
 _PENDING = "check not built yet in this round (design in DESIGN.md section 5); will be claimed once its rules are exact on the repaired tree"
 for _p in ["C01","C02","C03","C04","C06","C07","C08","C09","C10","C11","C12","C13","C14","C15","C16","C17","C18","C19","C20"]:
     if _p not in CLAIMED:
